@@ -6,6 +6,8 @@ from .. import core, tree, model, monitors
 from ..core import b, u
 
 PROP = "C08"
+PROBES = ("probe_xcp",)
+PROBE_BIN = {}
 LEVEL = "exploration"
 RULE = ("seeded cases: 3-12 sources (multi-block and small files, links, FIFOs, sockets, directories) copied with -n into an "
         "existing directory pre-populated with entries of every kind (file, directory, FIFO, socket, link to an existing file, "
@@ -146,7 +148,13 @@ def gen_cases(tier, seed):
             srcargs = ["n[0-9][0-9]"] if r.random() < 0.5 else ["n0*", "n1*"] if k > 10 else ["n*"]
         base = ["--driver", driver, "-w", str(r.choice([0, 1, 2, 4, 8])), "--block-size", "16KB", "-n", "-r"] + extra
         args = base + (["--target-directory", dsp] + srcargs if form == "target-directory" else srcargs + [dsp])
-        yield {"spec": spec, "pre": pre, "args": args, "driver": driver, "colls": colls, "pos": posclass if ncoll else "none", "plan": sch, "fs": "ext4"}
+        # one case in ten goes through the library instead of the command line (a client whose updater ignores Error updates
+        # only has copy()'s return value to learn about the conflict)
+        api = None
+        if r.random() < 0.3 and not any(x in extra for x in ("--backup", "--glob", "-L", "--ownership", "-v", "--reflink", "--no-progress")) and form == "plain":
+            api = {"updater": r.choice(["noop", "noop", "record", "channel"]), "mode": r.choice(["live", "after"]),
+                   "flags": ["--no-clobber"] + [f for f in extra if f in ("--fsync", "--no-perms", "--no-timestamps", "--gitignore")]}
+        yield {"api": api, "spec": spec, "pre": pre, "args": args, "driver": driver, "colls": colls, "pos": posclass if ncoll else "none", "plan": sch, "fs": "ext4", "names": list(names)}
 
 
 FIELDS_FILE = ("k", "ino", "size", "sha", "mode", "mtime_ns", "ctime_ns", "uid", "gid", "xattrs")
@@ -169,7 +177,13 @@ def run_case(case):
                              {"id": "g1", "sys": "symlink", "path": lp, "action": "hold", "until": "n1", "count": 2, "maxwait_ms": 400},
                              {"id": "n2", "sys": "symlink", "path": lp, "action": "note", "when": "exit"},
                              {"id": "g2", "sys": "openat", "path": lp, "action": "hold", "until": "n2", "maxwait_ms": 400}]
-        run = core.run_xcp(sb, [a.replace("@ROOT@", root) for a in case["args"]], plan)
+        if case.get("api"):
+            plan["driver"] = case["driver"]
+            argv = [PROBE_BIN["probe_xcp"], case["driver"], case["api"]["updater"], case["api"]["mode"], "4", "16384"] + case["api"]["flags"] + ["--"] + case["names"] + ["dst"]
+            run = core.run_supervised(sb, argv, plan)
+            res["counters"]["library-api-runs"] = 1
+        else:
+            run = core.run_xcp(sb, [a.replace("@ROOT@", root) for a in case["args"]], plan)
         if run.verdict != "exited":
             res["inconc"].append("run-" + run.verdict)
             return res
